@@ -7,6 +7,8 @@ shape of a fixed pool, gated by the real check_schema (so exactly the
 alternatives the bundled metaschema admits survive), nested and paired.
 """
 import random
+import signal
+import time
 
 import jsonschema
 
@@ -29,13 +31,27 @@ RULE = ("deterministic core: every keyword name of any draft x 46 JSON value sha
         "instance, entry point); non-trivial when the schema has >=1 vocabulary keyword; distinct by canonical JSON.")
 ASSUMPTIONS = [
     "interpreter limits bound inputs: instance nesting <= 12, integers <= 4000 digits",
-    "hang = more than 5e6 PY_START events in repo code for one operation (deterministic); wall clock only yields inconclusive",
+    "hang = more than 5e6 PY_START events in repo code for one operation (deterministic), or more than 10 s of the worker process's own user CPU time (ITIMER_VIRTUAL) for one operation on an input of a few hundred characters, confirmed by a second run alone under 20 s; wall clock only yields inconclusive",
     "$ref values are strings and regexes compile in Python re (as the property's quantifier says)",
 ]
 REPORT_COUNTERS = ["operations", "accepted_cells", "rejected_cells", "raised_ValidationError", "raised_RefResolutionError",
                    "raised_UnknownType", "max_steps_one_operation"]
 
 BUDGET = 5_000_000
+# Work the step counter cannot see (the regex engine, big-number arithmetic: no Python function is entered) is bounded in
+# CPU time *of this process* (ITIMER_VIRTUAL: user-mode time the process itself consumed - not wall clock, so machine load
+# does not enter the verdict).  Inputs are a few hundred characters; the slowest operation of the unchanged tree uses
+# milliseconds (reported as max_cpu_ms_one_operation).  A hit is confirmed by running the operation again, alone, under
+# twice the budget; an unconfirmed hit only counts as inconclusive.
+CPU_BUDGET_S = 10.0
+
+
+class CpuBudgetExceeded(BaseException):
+    pass
+
+
+def _on_vtalrm(signum, frame):
+    raise CpuBudgetExceeded()
 # unknown http references are generated on purpose; the harness blocks and records the urlopen call
 TRIPWIRE_EXPECTED = ("urlopen",)
 
@@ -61,6 +77,12 @@ HOSTILE_INSTANCES = [10 ** 400, -(10 ** 400), 1e308, -1e308, 5e-324, 10 ** 3999,
                      "a" * 300, "\U0001d11e" * 5, "a\nb", "20200101", "1.2.3.4", "::1", "(", "a{99999999999}",
                      [10 ** 400, 1e308], {"a": 10 ** 400, "b": 1.5}, [[1], [True]], [{"a": 0}, {"a": False}],
                      {"": {"": {"": []}}}, ["a", "a"], [1, 1.0], {"a": {"a": {"a": {"a": 1}}}}]
+
+
+REPETITIVE_NEAR_MISSES = [head + unit * n + tail
+                          for head in ("", "a@", "http://", "1", "#/")
+                          for unit, n in (("a", 48), ("1", 48), ("a.", 24), ("a-", 24), ("0:", 24), ("%41", 16), ("/a", 24), ("1.", 24), ("-", 48))
+                          for tail in ("", " ", "!", "@b@", "..", "\n")]
 
 
 def _compiles(p):
@@ -104,7 +126,7 @@ def floors(tier):
             "raised_ValidationError": 20000, "raised_RefResolutionError": 50, "raised_UnknownType": 20,
             "distinct_nontrivial": 20000, "entry:is_valid": 10000, "entry:iter_errors": 10000,
             "entry:validate": 2000, "entry:module_validate": 2000, "entry:with_format_checker": 2000,
-            "pairs_consulting": 500, "hostile_string_schemas": 1000, "reused_validator_sequences": 500, "stacked_applicator_schemas": 40, "format_near_miss_cases": 1500}
+            "pairs_consulting": 500, "hostile_string_schemas": 1000, "reused_validator_sequences": 500, "stacked_applicator_schemas": 40, "format_near_miss_cases": 1500, "repetitive_near_miss_cases": 8000}
 
 
 # --------------------------------------------------------------------- known-finding classifiers
@@ -279,16 +301,46 @@ class Runner:
         self.steps = StepCounter(BUDGET)
         self.fc = jsonschema.FormatChecker()
         self.k = 0
+        self.max_cpu = 0.0
+        self.cpu_hits = 0
+        signal.signal(signal.SIGVTALRM, _on_vtalrm)
+
+    def _within_cpu_budget(self, fn, budget):
+        t0 = time.process_time()
+        signal.setitimer(signal.ITIMER_VIRTUAL, budget)
+        try:
+            fn()
+        finally:
+            signal.setitimer(signal.ITIMER_VIRTUAL, 0)
+            used = time.process_time() - t0
+            if used > self.max_cpu:
+                self.max_cpu = used
 
     def op(self, draft, schema, inst, entry, fn):
         ctx = self.ctx
+        if self.cpu_hits >= 3:
+            # three confirmed hangs in this shard: the verdict is settled, the rest of the workload would only repeat them
+            ctx.count("operations_skipped_after_three_confirmed_hangs")
+            return
         self.steps.reset()
         ctx.count("operations")
         ctx.count("entry:" + entry.split("+")[0])
         if "+fc" in entry:
             ctx.count("entry:with_format_checker")
         try:
-            fn()
+            try:
+                self._within_cpu_budget(fn, CPU_BUDGET_S)
+            except CpuBudgetExceeded:
+                self.steps.reset()
+                try:
+                    self._within_cpu_budget(fn, 2 * CPU_BUDGET_S)
+                    ctx.count("cpu_budget_hit_not_confirmed_inconclusive")
+                except CpuBudgetExceeded:
+                    self.cpu_hits += 1
+                    ctx.violation("hang", {"draft": draft, "schema": schema, "instance": inst, "entry": entry},
+                                  "did not finish within %.0f s of the process's own CPU time (and again not within %.0f s, run alone)"
+                                  % (CPU_BUDGET_S, 2 * CPU_BUDGET_S))
+                    return
             ctx.count("returned")
         except impl.ALLOWED_EXC as e:
             ctx.count("raised_" + type(e).__name__)
@@ -325,6 +377,12 @@ class Runner:
             self.op(draft, schema, inst, "module_validate+fc",
                     lambda: jsonschema.validate(inst, schema, cls=cls, format_checker=self.fc))
 
+    def fc_case(self, draft, schema, inst):
+        ctx = self.ctx
+        cls = impl.CLS[draft]
+        ctx.case([draft, schema, inst], nontrivial=True)
+        self.op(draft, schema, inst, "is_valid+fc", lambda: cls(schema, format_checker=self.fc).is_valid(inst))
+        self.op(draft, schema, inst, "iter_errors+fc", lambda: list(cls(schema, format_checker=self.fc).iter_errors(inst)))
 
     def reused(self, draft, schema, insts):
         """One validator object taken through every entry point over a sequence of instances: whatever an earlier
@@ -394,6 +452,7 @@ def run(ctx):
         R.steps.reset()
         R.steps.stop()
     ctx.notes["max_steps_one_operation_shard%d" % ctx.shard] = R.steps.max_seen
+    ctx.notes["max_cpu_ms_one_operation_shard%d" % ctx.shard] = round(R.max_cpu * 1000, 1)
     if ctx.shard == 0:
         ctx.count("max_steps_one_operation", R.steps.max_seen)
 
@@ -486,6 +545,15 @@ def _core(ctx, R):
                 for text in FORMAT_NEAR_MISSES:
                     ctx.count("format_near_miss_cases")
                     R.case(d, s, text if not nested else ({"v": text} if len(text) % 2 else [text, 1, None]), full=True)
+            # ... and against long repetitive strings that just miss (what a backtracking matcher chokes on; the step
+            # counter sees nothing of it, the CPU-time budget does)
+            idx += 1
+            if ctx.mine(idx):
+                s = {"format": f}
+                if gate(ctx, d, s):
+                    for text in REPETITIVE_NEAR_MISSES:
+                        ctx.count("repetitive_near_miss_cases")
+                        R.fc_case(d, s, text)
         for s in _ref_schemas(d):
             idx += 1
             if not ctx.mine(idx):
